@@ -106,10 +106,12 @@ def RR.matchesRR (a b : RR) : Bool := a.name == b.name && a.ty == b.ty && a.flus
 def RR.wire (r : RR) : Wire.Rec :=
   { name := r.getName, ty := r.ty, cls := 1, flush := r.flush, ttl := r.ttl, rdata := r.rdata, start := 0, stop := 0 }
 
-/-- `suppressed_by_answer` against a record of an incoming query (`matches`: same entry incl.
-    letter case and cache-flush bit, same RDATA; and the known answer's TTL is more than half) -/
+/-- `suppressed_by_answer` against a record of an incoming query (after the repair of D18: the
+    same name - `get_name()`, i.e. the new name after a rename, ASCII letter case ignored -,
+    type, class and RDATA; neither the cache-flush bit nor the interface is compared; and the
+    known answer's TTL is more than half) -/
 def suppressedByAnswer (mine : RR) (o : Wire.Rec) : Bool :=
-  o.name == mine.name && o.ty == mine.ty && o.cls == 1 && o.flush == mine.flush && o.rdata == mine.rdata &&
+  lower o.name == lower mine.getName && o.ty == mine.ty && o.cls == 1 && o.rdata == mine.rdata &&
     decide (o.ttl > mine.ttl / 2)
 
 /-- `suppressed_by` -/
